@@ -11,5 +11,6 @@ rsync -a --exclude event/test_dbpath /repo/ "$S/repo/"
 rsync -a --exclude .build --exclude .work --exclude replays-out --exclude .git /verif/ "$S/verif/"
 sed -i "s#=> /repo#=> $S/repo#" "$S/verif/harness/go.mod"
 VERIF_ROOT="$S/verif" VERIF_REPO="$S/repo" "$S/verif/check" "$ID" "$TIER"; rc=$?
+if [ -n "$KEEP_REPLAYS" ]; then mkdir -p "$KEEP_REPLAYS"; cp "$S"/verif/replays-out/* "$KEEP_REPLAYS"/ 2>/dev/null; fi
 rm -rf "$S"
 exit $rc
